@@ -1,8 +1,9 @@
 /-
   Driver of property C03 (an edit changes exactly what it names): the edit-operation model, observed
-  after every visitor.  The protocol is documented in FianoModel/Uefi/EditDrv.lean.
+  after every visitor.  The protocol is documented in FianoModel/Uefi/EditDrv.lean; selectors that are
+  regular expressions arrive as match sets (FianoModel/Uefi/EditDrvSel.lean).
 -/
 import Driver.Common
-import FianoModel.Uefi.EditDrv
+import FianoModel.Uefi.EditDrvSel
 
-def main : IO Unit := Driver.loop Fiano.Uefi.EditDrv.handle
+def main : IO Unit := Driver.loop Fiano.Uefi.EditDrvSel.handle
